@@ -157,25 +157,48 @@ def rule_j(F):
     looks for an equal key (insert / insert_with_hint / entry / find_ind / a PartialEq::eq on keys): an equal key found
     there replaces an entry, the count comes out short and the consistency assertion panics in an unrelated insert."""
     res = []
+    LOOKUPS = ("insert", "insert_with_hint", "entry", "find_ind", "get", "get_mut", "contains", "remove", "remove_with_hint")
+
+    def is_lookup(n):
+        return ("CaoHashMap::" in n and n.rsplit("::", 1)[-1] in LOOKUPS) or n.endswith("PartialEq::eq") or n.endswith("cmp::PartialEq::ne")
+
+    def unit(f):
+        """f, the private functions of the map it calls (transitively; the loop over the old slots may have been split off
+        into helpers) and their closures. Functions that look keys up are not entered: calling one is the offence."""
+        out, work = [f], [f]
+        while work:
+            g = work.pop()
+            for h in F.closures_of.get(g.short, []):
+                if h.mir and h not in out:
+                    out.append(h)
+                    work.append(h)
+            for _bi, t in mu.calls(g):
+                for n in callee_names(t["func"]):
+                    if not n.startswith("collections::hash_map::CaoHashMap::") or is_lookup(n) or n.endswith("alloc_storage"):
+                        continue
+                    h = F.fn(n, required=False)
+                    if h is not None and h.mir and h not in out and len(out) < 40:
+                        out.append(h)
+                        work.append(h)
+        return out
     cands = [f for f in F.fns if f.mir and not f.is_closure and "collections::hash_map::CaoHashMap" in f.path and
              any(any(n.endswith("alloc_storage") for n in callee_names(t["func"])) for _bi, t in mu.calls(f))]
     resizers = [f for f in cands if any(st["k"] == "assign" and mu.field_path(st["place"])[-1:] == ["count"] for b in f.blocks for st in b["stmts"])
                 or any(any(n.endswith("mem::replace") or n.endswith("mem::swap") for n in callee_names(t["func"])) for _bi, t in mu.calls(f))]
-    resizers = [f for f in resizers if f.cfg.back_edges()]
+    resizers = [f for f in resizers if any(g.cfg.back_edges() for g in unit(f))]
     if not resizers:
         raise AnchorMissing("the re-allocating function of CaoHashMap (alloc_storage + a loop over the old slots)")
     for f in resizers:
         key = "C12/J/%s/entries-are-moved-not-inserted" % f.name
         offenders = []
-        for bi, t in mu.calls(f):
-            for n in callee_names(t["func"]):
-                last = n.rsplit("::", 1)[-1]
-                if ("CaoHashMap::" in n and last in ("insert", "insert_with_hint", "entry", "find_ind", "get", "get_mut", "contains", "remove", "remove_with_hint")) \
-                        or n.endswith("PartialEq::eq") or n.endswith("cmp::PartialEq::ne"):
-                    offenders.append((t, n))
+        for g in unit(f):
+            for bi, t in mu.calls(g):
+                for n in callee_names(t["func"]):
+                    if is_lookup(n):
+                        offenders.append((g, t, n))
         if offenders:
-            t, n = offenders[0]
-            res.append(bad("C12.J", key, f.loc(t.get("ln")),
+            g, t, n = offenders[0]
+            res.append(bad("C12.J", key, g.loc(t.get("ln")),
                            "%s re-inserts the entries of the old storage through %s, which looks for an equal key first: two keys that are "
                            "compared by content and became equal after they were stored (tables used as keys and mutated since) collapse "
                            "into one entry, the count comes out short and the 'inconsistent count' assertion panics in the middle of an "
@@ -324,39 +347,49 @@ def rule_z(F):
 
 
 def rule_b(F):
-    """back-shift: the single-slot removal contains a loop that moves entries, and the EMPTY write happens after it"""
+    """back-shift: the single-slot removal contains a loop that moves entries (itself or in a private function it calls),
+    and the EMPTY write happens after it, on the final hole"""
     res = []
     T = table(F)
     f = T.fn("remove_with_hint")
     ws = T.slot_writes(f)
     vac = [w for w in ws if w["kind"] == "vacate" and not w["in_loop"]]
-    moves = [w for w in ws if w["kind"] == "occupy" and w["in_loop"]]
-    loops = [x for x in hir_walk(f.hir["body"]) if x.get("k") == "loop"]
     if not vac:
         res.append(undecided("C12.B", "C12/B/remove_with_hint/backshift", f.loc(), "no single-slot vacate found"))
         return res
-    if not moves or not loops:
+    g, call = tb.shifting_function(T, f)
+    if g is None:
         res.append(bad("C12.B", "C12/B/remove_with_hint/backshift", f.loc(vac[0]["expr"]["ln"]),
                        "removal empties a slot without moving the following entries of the probe chain back (no back-shift loop, no tombstone): "
                        "keys that probed past the removed slot become unreachable"))
         return res
-    # the hole that remains after shifting must be emptied: some EMPTY write must come after the loop in source order
-    last_loop_ln = max(hu_end_line(l) for l in loops)
-    after = [w for w in vac if w["expr"]["ln"] > last_loop_ln]
-    if after:
-        res.append(ok("C12.B", "C12/B/remove_with_hint/backshift", f.loc(after[0]["expr"]["ln"]), "back-shift loop followed by emptying the final hole"))
+    never_emptied = ("the back-shift loop copies the hash of a following entry into the hole but the slot it was moved from is never marked "
+                     "EMPTY: the entry stays visible twice (its stale copy holds a key that was dropped and a value that was moved out)")
+    if g is f:
+        # the hole that remains after shifting must be emptied: some EMPTY write must come after the loop in source order
+        loops = [x for x in hir_walk(f.hir["body"]) if x.get("k") == "loop"]
+        last_loop_ln = max(hu_end_line(l) for l in loops)
+        after = [w for w in vac if w["expr"]["ln"] > last_loop_ln]
+        if after:
+            res.append(ok("C12.B", "C12/B/remove_with_hint/backshift", f.loc(after[0]["expr"]["ln"]), "back-shift loop followed by emptying the final hole"))
+        else:
+            res.append(bad("C12.B", "C12/B/remove_with_hint/backshift", f.loc(vac[0]["expr"]["ln"]), never_emptied))
     else:
-        res.append(bad("C12.B", "C12/B/remove_with_hint/backshift", f.loc(vac[0]["expr"]["ln"]),
-                       "the back-shift loop copies the hash of a following entry into the hole but the slot it was moved from is never marked "
-                       "EMPTY: the entry stays visible twice (its stale copy holds a key that was dropped and a value that was moved out)"))
-    res.extend(backshift_instances(f, "C12.B", "C12/B/remove_with_hint", power_of_two=False))
+        after = [w for w in vac if w["expr"]["ln"] >= hu_end_line(call)]
+        if not after:
+            res.append(bad("C12.B", "C12/B/remove_with_hint/backshift", f.loc(vac[0]["expr"]["ln"]), never_emptied))
+        else:
+            status, msg, ln = tb.final_hole_verdict(T, f, g, call, after)
+            mk = {"ok": ok, "bad": bad, "undecided": undecided}[status]
+            res.append(mk("C12.B", "C12/B/remove_with_hint/backshift", f.loc(ln), msg))
+    res.extend(backshift_instances(g, "C12.B", "C12/B/remove_with_hint", power_of_two=False, F=F, slot_tys=T.slot_tys))
     return res
 
 
-def backshift_instances(f, rid, keybase, power_of_two):
+def backshift_instances(f, rid, keybase, power_of_two, F=None, slot_tys=()):
     from cao import backshift as bs
     out = []
-    r = bs.analyse(f, power_of_two)
+    r = bs.analyse(f, power_of_two, F, slot_tys)
     if r is None:
         return out
     seen = {}
